@@ -389,3 +389,15 @@ def open_descriptors():
         return len(os.listdir("/proc/self/fd"))
     except OSError:
         return -1
+
+
+def at_the_address_of(dead_id, make, tries=4000):
+    """Creates objects with make() until the interpreter places one at the address `dead_id` of an object that has
+    been collected; returns it (or None).  The others are kept alive meanwhile so that every try gets a new address."""
+    keep = []
+    for _ in range(tries):
+        o = make()
+        if id(o) == dead_id:
+            return o
+        keep.append(o)
+    return None
